@@ -34,6 +34,7 @@ class TimeoutCM(CM):
     def enter(self, I, is_async):
         I.timeout_stack.append(self)
         I.ctx.assumptions_used.add("external:asyncio.timeout")
+        I.ctx.emit("timeout.armed", None, (self.t,), {})
         return self
 
     def exit(self, I, exc, is_async):
@@ -83,9 +84,18 @@ def run_cm(I, cm, target, env, body, is_async):
         if enter is None or exit_ is None:
             raise Unsupported(f"external {cm.cls.__name__} used as context manager without an assumed contract")
         v = enter.apply(I, cm, [], {})
+        if is_async and enter.is_async:
+            if I.await_handler is None:
+                raise Unsupported("async with outside a coroutine rule")
+            v = I.await_handler(I, v, None)
         if target is not None:
             I.assign_target(target, v, env)
-        return _guarded(I, body, lambda exc: exit_.apply(I, cm, [exc], {}))
+
+        def on_exit(exc):
+            # release / __aexit__ of the supported primitives does not suspend
+            return exit_.apply_now(I, cm, [exc], {})
+
+        return _guarded(I, body, on_exit)
     if isinstance(cm, CM):
         v = cm.enter(I, is_async)
         if target is not None:
